@@ -145,13 +145,13 @@ def run_staged(out, tier, seed, rng, work):
     cases = []
     nmax = 4 if tier == "quick" else 6
     for n in range(1, nmax + 1):
-        for stages in itertools.combinations_with_replacement([1, 2, 3], n):
+        for stages in itertools.combinations_with_replacement([0, 1, 2, 3], n):
             for gens in ([[1] * n] + ([[rng.choice([1, 2]) for _ in range(n)]] if n > 1 else [])):
                 steps = [[s, g] for s, g in zip(stages, gens)]
                 cases.append({"form": "capture", "k": 0, "stages": steps})
                 cases.append({"form": "cond", "k": rng.choice([1, 2, 3]), "stages": steps})
     for mode in ("probe", "overlay"):
-        cs = [dict(c, id=i, mode=mode) for i, c in enumerate(cases)]
+        cs = [dict(c, id=i, mode=mode, deep=(i % 3 == 0)) for i, c in enumerate(cases)]
         cin, cout = os.path.join(work, f"sg-{mode}.json"), os.path.join(work, f"st-{mode}.json")
         json.dump(cs, open(cin, "w"))
         core.run_driver("harness.drivers.staged_driver", [cin, cout])
@@ -171,7 +171,7 @@ def replay(out, path):
     if "stages" in case:
         import os
         cin, cout = os.path.join(work, "sg.json"), os.path.join(work, "st.json")
-        json.dump([{k: case[k] for k in ("id", "form", "k", "stages", "mode")}], open(cin, "w"))
+        json.dump([{k: case.get(k) for k in ("id", "form", "k", "stages", "mode", "deep")}], open(cin, "w"))
         core.run_driver("harness.drivers.staged_driver", [cin, cout])
         r = core.run_tlc("TraceStaged", "TraceStaged.cfg", env={"TRACE_FILE": cout}, workers=1, timeout=600)
         out.add_tlc("TraceStaged[replay]", r)
